@@ -105,14 +105,22 @@ def build_package(d, name, spec):
     apdep = 'tables' in spec
     pkgwriter.write_conf(md, apdep, logd_step=spec.get('logd_step', 0.1), version=1 if spec['fmt'] == 'v1' else 2)
     pkgwriter.write_parameters(md, names, {'par1': np.arange(len(names)) * 1.5 + 0.25}, order=spec.get('par_order'))
+    cunit = spec.get('conv_unit', 'mJy')                       # the convolved files may be stored in Jy (same physical fluxes)
+    cfac = {'mJy': 1.0, 'Jy': 1e-3}[cunit]
     for ib, b in enumerate(bands):
         if apdep:
             fl = spec['tables'][:, ib, :]
-            pkgwriter.write_convolved(md, b, names, fl, fl * 0.01, apertures_au=spec['apertures'], filtwav_micron=BAND_WAV[b], gz=spec.get('gz', False))
+            ap_b = spec['apertures']
+            if spec.get('ap_per_band'):                        # band-specific tables: another largest tabulated aperture per band
+                n_keep = spec['ap_per_band'][ib]
+                fl, ap_b = fl[:, :n_keep], ap_b[:n_keep]
+            if spec.get('ap_order') == 'dec':                  # tabulated largest aperture first
+                fl, ap_b = fl[:, ::-1], ap_b[::-1]
+            pkgwriter.write_convolved(md, b, names, fl * cfac, fl * 0.01 * cfac, apertures_au=ap_b, filtwav_micron=BAND_WAV[b], gz=spec.get('gz', False), unit=cunit)
         else:
             fl = spec['flux'][:, ib:ib + 1]
-            pkgwriter.write_convolved(md, b, names, fl, fl * 0.01, apertures_au=None, filtwav_micron=BAND_WAV[b],
-                                      flat_single=spec.get('flat_single', True), gz=spec.get('gz', False))
+            pkgwriter.write_convolved(md, b, names, fl * cfac, fl * 0.01 * cfac, apertures_au=None, filtwav_micron=BAND_WAV[b],
+                                      flat_single=spec.get('flat_single', True), gz=spec.get('gz', False), unit=cunit)
     if spec['fmt'] == 'v2':
         # the cube: one spectral point per band, stored in increasing frequency
         order = np.argsort([-BAND_WAV[b] for b in bands])
@@ -142,15 +150,20 @@ def make_fitter(md, bands, law, av_range, distance_range_kpc=(1.0, 2.0), theta=N
                   remove_resolved=remove_resolved, use_memmap=memmap)
 
 
-def make_source(flags, flux, err, name='src'):
+def make_source(flags, flux, err, name='src', as_int=False):
     from sedfitter.source import Source
     s = Source()
     s.name = name
     s.x = 1.0
     s.y = 2.0
     s.valid = np.array(flags, dtype=int)
-    s.flux = np.array(flux, dtype=float)
-    s.error = np.array(err, dtype=float)
+    if as_int:
+        # whole-number photometry handed over as python ints (the setters accept lists): same numbers, integer dtype
+        s.flux = [int(v) for v in flux]
+        s.error = [int(v) for v in err]
+    else:
+        s.flux = np.array(flux, dtype=float)
+        s.error = np.array(err, dtype=float)
     return s
 
 
